@@ -93,6 +93,17 @@ def tocart (j : Json) : Except String Json := do
     pure (vectorToCartesian cl n a c, vectorToCartesianOp cl n a c)
   pure <| Json.mkObj [("code", jMat (rows.map (·.1))), ("op", jMat (rows.map (·.2)))]
 
+/-- {"cls","n","ncoords","pt":[cθ,sθ,cφ,sφ],"comps":[..]} -> the converted vector or "DimensionError" -/
+def tocartChecked (j : Json) : Except String Json := do
+  let cl ← parseCls (← fldS j "cls")
+  let n ← fldN j "n"
+  let nc ← fldN j "ncoords"
+  let a ← getAngles (← fldQs j "pt")
+  let comps ← fldQs j "comps"
+  match vectorToCartesianChecked cl n a nc comps with
+  | some v => pure (jQs v)
+  | none => pure (Json.str "DimensionError")
+
 /-- the same for rank-2 tensors: "tensors": [[[..]..]..] -/
 def tocart2 (j : Json) : Except String Json := do
   let cl ← parseCls (← fldS j "cls")
@@ -163,7 +174,7 @@ def postocart (j : Json) : Except String Json := do
   pure (Json.arr out.toArray)
 
 def handlers : List (String × Handler) := [
-  ("c19.cs", cs), ("c19.order", order), ("c19.tocart", tocart), ("c19.tocart2", tocart2),
+  ("c19.cs", cs), ("c19.order", order), ("c19.tocart", tocart), ("c19.tocart_checked", tocartChecked), ("c19.tocart2", tocart2),
   ("c19.products", products), ("c19.getitem", getitemH), ("c19.fromexpr", fromexpr),
   ("c19.fromexpr2", fromexpr2), ("c19.postocart", postocart)]
 end PdeVerif.Drv.C19
